@@ -57,6 +57,9 @@ Definition env_action (ak : act_kind) (a : list Q) : list Q :=
 
 (* oracle for one (step, env): id of the policy forward call it came from, sampled action, value, log-prob,
    and the value the policy assigns to the terminal observation (used only when bootstrapping) *)
+(* [p_tv] is V of the terminal observation IN THE REPRESENTATION THE POLICY IS TRAINED ON: under VecNormalize the terminal observation
+   is normalised like every other observation, whether the statistics are being updated (training=True) or frozen (training=False);
+   the model has no such flag because nothing in the bootstrap may depend on it - the harness checks the hand-over on the real code *)
 Record pol := mkP { p_id : Z; p_act : list Q; p_val : Q; p_logp : Q; p_tv : Q }.
 
 (* one (step, env) cell of the rollout buffer + the action the environment received *)
